@@ -15,7 +15,8 @@ class View:
 
 
 class Loop:
-    def __init__(self, inv=(), modifies=None, decreases=None, unroll=False, assume_only=()):
+    def __init__(self, inv=(), modifies=None, decreases=None, unroll=False, assume_only=(), lemmas=()):
+        self.lemmas = list(lemmas)             # definitional unfoldings (bsum_unfold(...)) assumed at the loop head
         self.assume_only = list(assume_only)   # invariants established by another view (assumed, not re-proved)
         self.inv = list(inv)
         self.modifies = modifies      # None -> function-level modifies
